@@ -356,8 +356,8 @@ def tree_cases(prop, tier, hibernation_values=(False,), extra=None):
     two = [("ea", "cma"), ("ea", "local"), ("de", "ea"), ("shade", "cma"), ("lhs", "cma"), ("sobol", "de"), ("ea", "shade")]
     three = [("ea", "ea", "cma"), ("de", "ea", "local"), ("ea", "de", "cma")]
     if tier == "quick":
-        two_shapes, three_shapes = [[[0]], [[0, 0]]], [[[0], [0]], [[0, 0], [0]]]
-        two, three = two[:5], three[:2]
+        two_shapes, three_shapes = [[[0]], [[0, 0]]], [[[0], [0]], [[0, 0], [0]], [[0], []]]
+        three = three[:2]
     else:
         two_shapes, three_shapes = SHAPES_2 + [[[0, 0, 0]]], SHAPES_3
     for hib in hibernation_values:
